@@ -162,6 +162,11 @@ def km(*a, **k):
     return type
 
 
+def et(*a):
+    """exception type expression: returns its last argument (the other arguments are just read)."""
+    return a[-1]
+
+
 def ex(gen):
     """exhausts a generator expression."""
     for _ in gen:
